@@ -43,20 +43,18 @@ Qed.
 (* the dynamic scanner's newline test, instantiated for the two representations:
    str  - elements are one-character strings: [x == '\n'] is [eqb x nl], [x == 10] is false
    bytes - elements are integers:             [x == '\n'] is false, [x == 10] is [eqb x nl] *)
-Definition isnl_str (x : A) : bool := dyn_isnl (fun y => eqb y nl) (fun _ => false) x.
-Definition isnl_bytes (x : A) : bool := dyn_isnl (fun _ => false) (fun y => eqb y nl) x.
 
-Lemma isnl_str_spec x : isnl_str x = eqb x nl.
+Lemma isnl_str_spec x : isnl_str eqb nl x = eqb x nl.
 Proof. unfold isnl_str, dyn_isnl. apply orb_false_r. Qed.
 
 (* repair of F2 *)
-Lemma isnl_bytes_spec x : isnl_bytes x = eqb x nl.
+Lemma isnl_bytes_spec x : isnl_bytes eqb nl x = eqb x nl.
 Proof. unfold isnl_bytes, dyn_isnl. reflexivity. Qed.
 
-Theorem dyn_coords_str (T : list A) i : (i <= length T)%nat -> dyn_at isnl_str T i = coord eqb nl T i.
+Theorem dyn_coords_str (T : list A) i : (i <= length T)%nat -> dyn_at (isnl_str eqb nl) T i = coord eqb nl T i.
 Proof. apply dyn_at_coord. exact isnl_str_spec. Qed.
 
-Theorem dyn_coords_bytes (T : list A) i : (i <= length T)%nat -> dyn_at isnl_bytes T i = coord eqb nl T i.
+Theorem dyn_coords_bytes (T : list A) i : (i <= length T)%nat -> dyn_at (isnl_bytes eqb nl) T i = coord eqb nl T i.
 Proof. apply dyn_at_coord. exact isnl_bytes_spec. Qed.
 
 End Current.
